@@ -249,7 +249,6 @@ pub fn run_json(cfg: Cfg, out: &mut Out) {
         let line = spec.op_line();
         let a = core.apply(&line).unwrap();
         out.case(&line, &a, None, &["scheme"]);
-        let mut prev: Option<(String, String)> = None;
         for _ in 0..n_filters {
             let depth = *rng.pick(&[1u32, 2, 3, 4]);
             let mut g = G::new(&mut rng, &spec);
@@ -292,17 +291,11 @@ pub fn run_json(cfg: Cfg, out: &mut Out) {
                     }
                     out.case(&op4, if why.is_none() { "ok" } else { "mismatch" }, None, &["json.literal-forms"]);
                 }
-                // structurally different filters serialize differently
-                if let Some((ptext, pans)) = &prev {
-                    if *pans == ans && ptext != &text {
-                        // equal documents must come from equal structure: check by re-parsing both to ASTs
-                        let e1 = core.spec.parser(&core.scheme).parse(ptext).ok();
-                        let e2 = core.spec.parser(&core.scheme).parse(&text).ok();
-                        if e1 != e2 {
-                            out.impl_failure(&op, &format!("distinct ASTs share one JSON: {ptext:?} / {text:?}"));
-                        }
-                    }
-                }
+                // (that two DIFFERENT structures never share a document is carried by the model:
+                // `json_injective` is proved there and every document is compared with the
+                // model's. A harness-side comparison of the Rust ASTs of two texts with equal
+                // documents was removed: `(x)` and `x` are different Rust ASTs and, by the
+                // property's own wording, the same document.)
                 // one-edit neighbours: flip one operator
                 for (a, b) in [("==", "!="), (" and ", " or "), ("<=", "<"), ("[0]", "[1]"), ("any", "all")] {
                     if text.contains(a) {
@@ -316,7 +309,6 @@ pub fn run_json(cfg: Cfg, out: &mut Out) {
                         break;
                     }
                 }
-                prev = Some((text.clone(), ans.clone()));
             }
         }
     }
@@ -413,6 +405,15 @@ pub fn run_lit(cfg: Cfg, out: &mut Out) {
         emit(&mut core, out, format!("y == {b:02x}"), "lit.bytes.hexpairs");
         emit(&mut core, out, format!("y == +{:x}:+{:x}", b & 15, b >> 4), "lit.bytes.hexpairs.sign");
         emit(&mut core, out, format!("my[\"\\x{b:02x}\"] == \"a\""), "lit.key");
+    }
+    // octal escapes beyond one byte (\400 .. \777) and escapes with too few / foreign digits
+    for v in 256..512u32 {
+        emit(&mut core, out, format!("y == \"\\{v:o}\""), "lit.bytes.octal-overflow");
+        if v % 8 == 0 {
+            emit(&mut core, out, format!("y contains \"a\\{v:o}\""), "lit.bytes.octal-overflow");
+            emit(&mut core, out, format!("y in {{\"\\{v:o}\"}}"), "lit.bytes.octal-overflow");
+            emit(&mut core, out, format!("my[\"\\{v:o}\"] == \"a\""), "lit.bytes.octal-overflow");
+        }
     }
     // random byte strings in every form, with followers
     for _ in 0..(if cfg.quick() { 150 } else { 8000 }) {
